@@ -12,6 +12,7 @@ import (
 	"net/http"
 	"os"
 	"path/filepath"
+	"strings"
 	"sync"
 	"time"
 
@@ -125,7 +126,7 @@ func (s *srvHandle) close() {
 
 func newServer(mode string, caSeed []byte, ids []*ident) *srvHandle {
 	env.Init()
-	s := &srvHandle{mode: mode, ca: newAuthority(caSeed), conns: map[string]*grpc.ClientConn{}, https: map[string]*http.Client{}}
+	s := &srvHandle{mode: mode, ca: newAuthorityShape(caSeed, strings.Contains(mode, "+inter")), conns: map[string]*grpc.ClientConn{}, https: map[string]*http.Client{}}
 	var err error
 	s.dir, err = os.MkdirTemp("", "c02srv")
 	must(err)
@@ -315,6 +316,15 @@ func registerServerOps() {
 			return fmt.Sprintf("%d unparsable", resp.StatusCode)
 		}
 		return fmt.Sprintf("%d %s", resp.StatusCode, core.Hex(b))
+	})
+	// srv.append handle cert : from now on every client of this server appends the (public) certificate of the
+	// described client to what it sends in the handshake – after its own certificate and the intermediate
+	core.Register("C02.srv.append", func(a []string) string {
+		s := srv(a[0])
+		c, _, err := s.ca.issue(parseCertDesc(a[1:]), false)
+		must(err)
+		s.ca.appended = append(s.ca.appended, c.Certificate[0])
+		return "ok"
 	})
 	// srv.plant handle id value : a value tokenized for `id` over another entry point that shares the token
 	// storage (AcraServer, the HTTP API): the token it got
